@@ -127,7 +127,9 @@ func checkC19(c *Ctx, r *Report) {
 					break
 				}
 			}
-			if ok {
+			if ok && inLoop(inc.Block()) {
+				r.Bad("C19-R1", key, inc.Pos(), "IncrementConnections and its deferred DecrementConnections sit inside a loop: the defer runs when the function returns, not when the attempt ends, so a finished attempt keeps its gauge until the whole request is over")
+			} else if ok {
 				r.OK("C19-R1", key, inc.Pos(), "followed immediately by defer DecrementConnections(same selector, same endpoint)")
 			} else {
 				r.Bad("C19-R1", key, inc.Pos(), "IncrementConnections is not immediately followed by a deferred DecrementConnections on the same selector and endpoint (gauge leaks on panic/early return)")
@@ -201,6 +203,48 @@ func checkC19(c *Ctx, r *Report) {
 	// ---------- R6 translator metrics ----------
 	r.Rule("C19-R6", "every function that writes an error status on behalf of the translation handler and receives the per-request proxyRequest sets pr.hadError before returning", 3)
 	checkTranslatorHadError(c, r)
+
+	// ---------- R7 atomic get-or-create ----------
+	r.Rule("C19-R7", "in the stats collectors a per-key entry of a shared concurrent map is created with an atomic get-or-create (LoadOrCompute/LoadOrStore); a Load miss followed by a Store of a fresh entry on the same map lets two first-touch callers each publish an entry and orphan the other's counts", 3)
+	for _, f := range c.Funcs {
+		if !strings.HasSuffix(fnPkgPath(f), "/adapter/stats") {
+			continue
+		}
+		type acc struct {
+			in   ssa.Instruction
+			name string
+			m    string
+		}
+		var accs []acc
+		eachInstr(f, func(in ssa.Instruction) {
+			cc := getCall(in)
+			if cc == nil || cc.IsInvoke() || len(cc.Args) == 0 {
+				return
+			}
+			ci := describeCall(cc)
+			if !strings.Contains(ci.Pkg, "xsync") {
+				return
+			}
+			if ld, ok := cc.Args[0].(*ssa.UnOp); ok {
+				if fa, ok := ld.X.(*ssa.FieldAddr); ok {
+					o, fld, _ := fieldOf(fa)
+					accs = append(accs, acc{in, ci.Name, recvTypeName(o) + "." + fld.Name()})
+				}
+			}
+		})
+		for _, a := range accs {
+			switch a.name {
+			case "LoadOrCompute", "LoadOrStore":
+				r.OK("C19-R7", fname(f)+":"+a.m+"."+a.name, a.in.Pos(), "atomic get-or-create")
+			case "Store":
+				for _, b := range accs {
+					if b.name == "Load" && b.m == a.m && reachAvoiding(b.in, a.in, nil) {
+						r.Bad("C19-R7", fname(f)+":"+a.m+".Load-then-Store", a.in.Pos(), "entry creation is a Load followed by a Store on the same shared map: concurrent first-touch callers each publish an entry, and counts recorded on the losing entry are lost (gauge and totals no longer add up)")
+					}
+				}
+			}
+		}
+	}
 
 	addC19Mutants()
 }
@@ -878,7 +922,20 @@ func reachedFromTranslation(c *Ctx, f *ssa.Function) bool {
 	return false
 }
 
-func addC19Mutants() {}
+func addC19Mutants() {
+	addMutants(
+		Mutant{Prop: "C19", Name: "defer-decrement-in-loop", File: "internal/adapter/proxy/core/retry.go", Rule: "C19-R1", Canary: true,
+			Old: "		lastErr = h.executeProxyAttempt(ctx, tracked, r, endpoint, selector, stats, proxyFunc)", New: "		selector.IncrementConnections(endpoint)\n		defer selector.DecrementConnections(endpoint)\n		lastErr = proxyFunc(ctx, tracked, r, endpoint, stats)"},
+		Mutant{Prop: "C19", Name: "decrement-not-deferred", File: "internal/adapter/proxy/core/retry.go", Rule: "C19-R1",
+			Old: "	selector.IncrementConnections(endpoint)\n	defer selector.DecrementConnections(endpoint)\n\n	return proxyFunc(ctx, w, r, endpoint, stats)", New: "	selector.IncrementConnections(endpoint)\n	err := proxyFunc(ctx, w, r, endpoint, stats)\n	selector.DecrementConnections(endpoint)\n	return err"},
+		Mutant{Prop: "C19", Name: "early-return-no-record", File: "internal/adapter/proxy/sherpa/service_retry.go", Rule: "C19-R2",
+			Old: "	if err != nil {\n		s.RecordFailure(ctx, endpoint, time.Since(stats.StartTime), err)\n		return fmt.Errorf(\"failed to create proxy request: %w\", err)", New: "	if err != nil {\n		return fmt.Errorf(\"failed to create proxy request: %w\", err)"},
+		Mutant{Prop: "C19", Name: "collector-double-failed", File: "internal/adapter/stats/collector.go", Rule: "C19-R3",
+			Old: "	} else {\n		c.failedRequests.Inc()\n	}\n\n	// Only update endpoint-specific stats", New: "	} else {\n		c.failedRequests.Inc()\n	}\n	if latencyMs < 0 {\n		c.failedRequests.Inc()\n	}\n\n	// Only update endpoint-specific stats"},
+		Mutant{Prop: "C19", Name: "first-touch-load-store", File: "internal/adapter/stats/collector.go", Rule: "C19-R7",
+			Old: "	key := endpoint.URLString\n	data, _ := c.endpoints.LoadOrCompute(key, func() (newValue *endpointData, cancel bool) {", New: "	key := endpoint.URLString\n	if d, ok := c.endpoints.Load(key); ok {\n		return d\n	}\n	defer func() {\n		if d, ok := c.endpoints.Load(key); !ok {\n			c.endpoints.Store(key, d)\n		}\n	}()\n	data, _ := c.endpoints.LoadOrCompute(key, func() (newValue *endpointData, cancel bool) {"},
+	)
+}
 
 
 // onlyForEmptyList: every static call site of f is control-dependent on len(x)==0 for a slice x that is provably
